@@ -4599,7 +4599,7 @@ class ResponseFuture(object):
                 "Unable to complete the operation against any hosts", self._errors))
         return False
 
-    def _query(self, host, message=None, cb=None):
+    def _query(self, host, message=None, cb=None, cb_for_connection=None):
         if message is None:
             message = self.message
 
@@ -4620,7 +4620,9 @@ class ResponseFuture(object):
             self._connection = connection
             result_meta = self.prepared_statement.result_metadata if self.prepared_statement else []
 
-            if cb is None:
+            if cb_for_connection is not None:
+                cb = cb_for_connection(connection)
+            elif cb is None:
                 cb = partial(self._set_result, host, connection, pool)
 
             self.request_encoded_size = connection.send_msg(message, request_id, cb=cb,
@@ -4714,8 +4716,11 @@ class ResponseFuture(object):
         self.send_request()
 
     def _reprepare(self, prepare_message, host, connection, pool):
-        cb = partial(self.session.submit, self._execute_after_prepare, host, connection, pool)
-        request_id = self._query(host, prepare_message, cb=cb)
+        # the callback must hand back the connection _query borrows for the PREPARE, which is not
+        # necessarily the one the EXECUTE ran on (that one has already been returned)
+        def cb_for(borrowed_connection):
+            return partial(self.session.submit, self._execute_after_prepare, host, borrowed_connection, pool)
+        request_id = self._query(host, prepare_message, cb_for_connection=cb_for)
         if request_id is None:
             # try to submit the original prepared statement on some other host
             self.send_request()
